@@ -160,7 +160,10 @@ def r2_store_routes(ctx, rule="C06.R2", strings_only=False):
                 is_store_tail = (last[0] == "push" and last[1] == "CopyAToVarPath") or \
                                 (last[0] == "gen" and last[2] in store_fns)
                 rest = kinds[:-1]
-                rest_ok = all(k[0] == "gen" and prog.fns[k[2]].name == "generate_path_instructions" for k in rest)
+                # everything before the tail only builds the variable path
+                rest_ok = all((k[0] == "gen" and prog.fns[k[2]].name == "generate_path_instructions") or
+                              (k[0] == "push" and k[1] in ("VarPathName", "VarPathIndex", "VarPathProperty"))
+                              for k in rest)
                 if not (is_store_tail and rest_ok):
                     ok = False
                     break
@@ -182,7 +185,7 @@ def r2_store_routes(ctx, rule="C06.R2", strings_only=False):
             what = mir.short_origin(e.args[1]) if e.kind == "gen" and len(e.args) > 1 else "allocated value"
             key = "%s:%s:store(%s)" % (rule, f.name, what)
             loc = "%s:%s" % (f.file, e.line)
-            bad = [p for p in producers if not _producer_converts(p)]
+            bad = [p for p in producers if not _producer_converts(p, prog)]
             if strings_only:
                 # arithmetic results are numeric; the checker rejects string FOR counters
                 bad = [p for p in bad if not (p.kind == "push" and p.instr in ARITH_INSTR)]
@@ -206,7 +209,7 @@ def r2_store_routes(ctx, rule="C06.R2", strings_only=False):
         for e in sorted([e for e in evs.values() if e.kind == "push" and e.instr == "CopyAToC"], key=lambda x: x.bb):
             n += 1
             producers = _producers_before(f, evs, e.bb, prog)
-            bad = [p for p in producers if not _producer_converts(p)]
+            bad = [p for p in producers if not _producer_converts(p, prog)]
             ctx.decide(bool(producers) and not bad, rule, "%s:%s:loop-limit" % (rule, f.name),
                        "%s:%s" % (f.file, e.line), "limit produced by the casting emitter",
                        "the FOR limit copied to register C is produced by %s without conversion to the "
@@ -244,24 +247,47 @@ def _type_gated_casts(prog, f, evs):
     return out
 
 
+def _fix_length_gates(prog, f, evs):
+    """switch blocks `if let ExpressionType::FixedLengthString(n) = <type> { push(FixLength(n)) }`:
+    {switch bb: blocks of the FixedLengthString arm}."""
+    out = {}
+    for sw in mir.enum_switches(prog, f.body):
+        if not sw.adt.endswith("::ExpressionType") or "FixedLengthString" not in sw.arms:
+            continue
+        region = mir.arm_region(f.body, sw.bb, sw.arms["FixedLengthString"])
+        if any(evs.get(b) is not None and evs[b].kind == "push" and evs[b].instr == "FixLength" for b in region):
+            out[sw.bb] = region
+    return out
+
+
 def _producers_before(f, evs, bb, prog=None):
     """Nearest value-producing events on each backward path from the store site."""
     body = f.body
     preds = body.preds()
     gated = _type_gated_casts(prog, f, evs) if prog is not None else {}
+    fix_gated = _fix_length_gates(prog, f, evs) if prog is not None else {}
     out = []
     seen = set()
     # (block, block we came from, number of value-stack pops still to be matched by a push)
     st = [(p, bb, 0) for p in preds.get(bb, [])]
+    skipped_fix = set()
     while st:
         b, came_from, pending_pops = st.pop()
         if b in gated and came_from not in gated[b]:
             # the path on which the value's type is not a built-in numeric/string type
             continue
+        if b in fix_gated and came_from not in fix_gated[b]:
+            # the argument is not a fixed-length string on this path; remembered: only the by-ref
+            # write-back (whose types are equal by C12.R4) may rely on that
+            skipped_fix.add(b)
         if (b, pending_pops) in seen:
             continue
         seen.add((b, pending_pops))
         e = evs.get(b)
+        if e is not None and skipped_fix and e.kind == "push" and e.instr == "DequeueFromReturnStack" and not pending_pops:
+            # by-reference write-back: the dequeued value has the parameter's type, which equals the
+            # argument's type; fixed-length strings were re-fixed on the other arm of the gate
+            continue
         if e is not None and e.kind == "push" and e.instr == "PopValueStackIntoA":
             # the value comes back from the value stack: its producer is whatever was in A at the
             # matching PushAToValueStack
@@ -290,7 +316,7 @@ def _is_producer(e):
     return False
 
 
-def _producer_converts(e):
+def _producer_converts(e, prog=None):
     if e.kind == "EXPR":
         return e.callee.name == "generate_expression_instructions_casting"
     if e.kind == "push":
@@ -298,9 +324,18 @@ def _producer_converts(e):
                            "AllocateUserDefined", "Cast", "FixLength")
     if e.kind == "gen":
         # by-ref write-back: the callee's parameter has exactly the argument's type (C12.R4);
-        # strings are re-fixed to their length
-        return e.callee.name in ("generate_fix_string_length",)
+        # strings are re-fixed to their length by a helper that emits nothing but FixLength
+        return _emits_only_fix_length(e.callee, prog)
     return False
+
+
+def _emits_only_fix_length(fn, prog, _memo={}):
+    if prog is None:
+        return fn.name == "generate_fix_string_length"
+    if fn.id not in _memo:
+        evs = emit.events(prog, fn)
+        _memo[fn.id] = bool(evs) and all(x.kind == "push" and x.instr == "FixLength" for x in evs.values())
+    return _memo[fn.id]
 
 
 def r3_integer_constructors(ctx, rule="C06.R3", crates=("rusty_variant", "rusty_linter", "rusty_basic"),
